@@ -110,7 +110,7 @@ report contains violation if {
 
 # Check custom rules
 report contains violation if {
-	file_name_relative_to_root := trim_prefix(input.regal.file.name, concat("", [config.path_prefix, "/"]))
+	file_name_relative_to_root := _file_name_relative_to_root(input.regal.file.name, config.path_prefix)
 
 	some category, title
 
@@ -137,10 +137,12 @@ aggregate[category_title] contains entry if {
 # description: collects aggregates in custom rules
 # scope: rule
 aggregate[category_title] contains entry if {
+	file_name_relative_to_root := _file_name_relative_to_root(input.regal.file.name, config.path_prefix)
+
 	some category, title
 
 	not config.ignored_rule(category, title)
-	not config.excluded_file(category, title, input.regal.file.name)
+	not config.excluded_file(category, title, file_name_relative_to_root)
 
 	entries := _mark_if_empty(data.custom.regal.rules[category][title].aggregate)
 
